@@ -1,0 +1,56 @@
+//go:build verif
+
+package ring
+
+import "time"
+
+// Verification hooks for property C13 (build tag `verif`): add-only, no behaviour.
+//
+// Ring.ShuffleShard / ShuffleShardWithLookback consist of three separate critical sections of r.mtx
+// (cache look-up under RLock; computation under RLock; guarded store under Lock). The wrappers below
+// expose each section on its own so that the harness can run OTHER sections (updateRingState, other
+// readers' sections, CleanupShuffleShardCache) in between, deterministically, i.e. pause a reader
+// between look-up and compute and between compute and store.
+
+// VerifShardLookup is the first section of ShuffleShard: nil on a miss.
+func (r *Ring) VerifShardLookup(identifier string, size int) *Ring {
+	return r.getCachedShuffledSubring(identifier, size)
+}
+
+// VerifShardCompute is the second section of ShuffleShard (the dispatch on size as ShuffleShard does it).
+func (r *Ring) VerifShardCompute(identifier string, size int) *Ring {
+	if size <= 0 {
+		return r.filterOutReadOnlyInstances(0, time.Now())
+	}
+	return r.shuffleShard(identifier, size, 0, time.Now())
+}
+
+// VerifShardStore is the third section of ShuffleShard.
+func (r *Ring) VerifShardStore(identifier string, size int, subring *Ring) {
+	r.setCachedShuffledSubring(identifier, size, subring)
+}
+
+// VerifShardLookupLB is the first section of ShuffleShardWithLookback: nil on a miss.
+func (r *Ring) VerifShardLookupLB(identifier string, size int, lookbackPeriod time.Duration, now time.Time) *Ring {
+	return r.getCachedShuffledSubringWithLookback(identifier, size, lookbackPeriod, now)
+}
+
+// VerifShardComputeLB is the second section of ShuffleShardWithLookback.
+func (r *Ring) VerifShardComputeLB(identifier string, size int, lookbackPeriod time.Duration, now time.Time) *Ring {
+	if size <= 0 {
+		return r.filterOutReadOnlyInstances(lookbackPeriod, now)
+	}
+	return r.shuffleShard(identifier, size, lookbackPeriod, now)
+}
+
+// VerifShardStoreLB is the third section of ShuffleShardWithLookback.
+func (r *Ring) VerifShardStoreLB(identifier string, size int, lookbackPeriod time.Duration, now time.Time, subring *Ring) {
+	r.setCachedShuffledSubringWithLookback(identifier, size, lookbackPeriod, now, subring)
+}
+
+// VerifLastTopologyChange is the stamp written by the last re-indexing (setRingStateFromDesc).
+func (r *Ring) VerifLastTopologyChange() time.Time {
+	r.mtx.RLock()
+	defer r.mtx.RUnlock()
+	return r.lastTopologyChange
+}
